@@ -4,28 +4,28 @@
 
 // failed check (assertion): assertion failed: r.rank(p) == exp
 #[test]
-fn kani_concrete_playback_rank9_n9_len513_2005558268548479130() {
+fn kani_concrete_playback_rank9_n9_len513_16751656209249948448() {
     let concrete_vals: Vec<Vec<u8>> = vec![
-        // 18446481114588971071ul
-        vec![63, 0, 7, 15, 215, 16, 255, 255],
-        // 14999802483935481344ul
-        vec![0, 14, 255, 3, 227, 0, 42, 208],
-        // 387028159039616ul
-        vec![128, 8, 240, 3, 0, 96, 1, 0],
-        // 17153651088730030335ul
-        vec![255, 0, 191, 0, 200, 2, 14, 238],
-        // 354041950691136ul
-        vec![64, 223, 180, 208, 255, 65, 1, 0],
-        // 281470697664767ul
-        vec![255, 240, 242, 0, 255, 255, 0, 0],
-        // 4179341550506999567ul
-        vec![15, 255, 255, 64, 255, 0, 0, 58],
-        // 18410893957950075135ul
-        vec![255, 240, 255, 120, 130, 162, 128, 255],
-        // 18004928106594303ul
-        vec![255, 255, 255, 255, 98, 247, 63, 0],
-        // 9223372036854775808ul
-        vec![0, 0, 0, 0, 0, 0, 0, 128],
+        // 9223372036854775807ul
+        vec![255, 255, 255, 255, 255, 255, 255, 127],
+        // 18446744073709551615ul
+        vec![255, 255, 255, 255, 255, 255, 255, 255],
+        // 17870089807357542399ul
+        vec![255, 255, 223, 255, 255, 79, 255, 247],
+        // 18446744073709551613ul
+        vec![253, 255, 255, 255, 255, 255, 255, 255],
+        // 17865552118576844548ul
+        vec![4, 15, 0, 0, 255, 48, 239, 247],
+        // 18446744073709549567ul
+        vec![255, 247, 255, 255, 255, 255, 255, 255],
+        // 18375020735501434879ul
+        vec![255, 255, 255, 255, 0, 48, 1, 255],
+        // 18970971209729ul
+        vec![1, 0, 0, 6, 65, 17, 0, 0],
+        // 1657610535912341504ul
+        vec![0, 0, 0, 1, 0, 4, 1, 23],
+        // 18446744073709551566ul
+        vec![206, 255, 255, 255, 255, 255, 255, 255],
     ];
     kani::concrete_playback_run(concrete_vals, crate::c01::q::rank9_n9_len513);
 }
